@@ -3,7 +3,12 @@ package main
 // C08 — every opcode against the reference semantics: single-instruction
 // programs for every opcode byte 0x00..0xff on random and boundary stacks,
 // both expansion settings. The Coq model (coq/lib/VM.v, proved to refine the
-// reference semantics in coq/C08) is the reference: a mismatch IS the failing input.
+// reference semantics coq/C08/Spec.v: c08_exec_refines_spec_partial) is the
+// reference: a mismatch IS the failing input. Direct oracles on the implementation's
+// outputs: (1) class=numeric-semantics — for the numeric opcodes 0x8b..0xa5 the expected
+// final stack / error class is recomputed with math/big from the decoded operands
+// (written from the documented semantics, independent of vm and of the Coq model);
+// (2) class=gas-range — 0 <= gas left <= gas limit; (3) class=unknown-error.
 
 import (
 	"bytes"
